@@ -96,8 +96,8 @@ def mainStep (k : Nat) (w : Wk τ) (p : MainP) : Option (Wk τ) :=
     match p with
     | .collect errs garbage =>
       let msgs : List (WMsg τ) := [.ignored] ++ errs.map (fun e => .ev (.collectreport k e.1 e.2)) ++ [.ev (.collectionfinish k w.ids)]
-      if !errs.isEmpty then
-        -- "Interrupted: N errors during collection": the worker's session ends with exit status 2
+      if errs.any (·.2) then
+        -- "Interrupted: N errors during collection": the worker's session ends with exit status 2 (skips do not count)
         some { w with outbox := w.outbox ++ msgs, exitstatus := 2, phase := .finish }
       else
         some { w with outbox := w.outbox ++ msgs ++ (if garbage then [.garbage] else []), phase := .loop, cbSet := true }
